@@ -85,6 +85,7 @@ func objects() []obj {
 	return []obj{
 		{kind: "Namespace", key: "Namespace//a", variant: "team=x", ns: &wm.NS{Name: "a", Labels: map[string]string{"team": "x"}, HasObj: true}},
 		{kind: "Namespace", key: "Namespace//a", variant: "team=y", ns: &wm.NS{Name: "a", Labels: map[string]string{"team": "y"}, HasObj: true}},
+		{kind: "Namespace", key: "Namespace//a", variant: "nolabels", ns: &wm.NS{Name: "a", Labels: map[string]string{}, HasObj: true}},
 		{kind: "Namespace", key: "Namespace//b", variant: "", ns: &wm.NS{Name: "b", Labels: map[string]string{}, HasObj: true}},
 		mkpod("app=a", "a", "p1", "rs1", map[string]string{"app": "a"}, 80),
 		mkpod("app=c", "a", "p1", "rs1", map[string]string{"app": "c"}, 80),
